@@ -5,7 +5,8 @@
 
 use crate::bufeng::*;
 use crate::bufnode::GETTERS;
-use crate::bufrun::{c10_entries, BCase};
+use crate::bufrun::{bcase_strategy, c10_entries, run_bcase, BCase};
+use crate::bufmut::{run_wcase_dg, wcase_strategy, WCase, WStats};
 use crate::hist::*;
 use crate::histrun::{case_from_json, case_json, case_strategy, Case};
 use crate::oalloc;
@@ -121,6 +122,25 @@ fn read_digest(c: &BCase) -> u64 {
     h
 }
 
+fn gen_b(seed: u64, n: usize) -> (Vec<BCase>, Vec<WCase>) {
+    let mut s = [0u8; 32];
+    s[..8].copy_from_slice(&seed.to_le_bytes());
+    s[9] = 0xD2;
+    let mut runner = TestRunner::new_with_rng(Config::default(), TestRng::from_seed(RngAlgorithm::ChaCha, &s));
+    let (bs, ws) = (bcase_strategy("C12"), wcase_strategy("C11"));
+    let mut b = Vec::new();
+    let mut w = Vec::new();
+    for _ in 0..n {
+        if let Ok(t) = bs.new_tree(&mut runner) {
+            b.push(t.current());
+        }
+        if let Ok(t) = ws.new_tree(&mut runner) {
+            w.push(t.current());
+        }
+    }
+    (b, w)
+}
+
 pub fn features_name() -> &'static str {
     if cfg!(feature = "bextra") {
         "extra-platforms"
@@ -134,15 +154,25 @@ pub fn features_name() -> &'static str {
 pub fn main_digest(args: &Args) -> i32 {
     util::install_crash_reporter();
     util::silence_panics();
+    crate::bufeng::DIGEST_MODE.store(true, std::sync::atomic::Ordering::SeqCst);
     let seed = args.u64("seed", 1);
     let n = args.usize("cases", 3000);
     let parity = if args.str("parity", "even") == "odd" { 1 } else { 0 };
     if let Some(path) = args.kv.get("replay") {
         // prints the per-step digests of one saved case (the driver diffs them across configurations)
         let v: Value = serde_json::from_str(&std::fs::read_to_string(path).unwrap_or_default()).unwrap_or(Value::Null);
+        if v.get("engine").and_then(|e| e.as_str()) == Some("bufmut") {
+            let Some(c) = WCase::from_json(&v) else { return 2 };
+            let mut st = WStats::default();
+            let d = run_wcase_dg(&c, &mut st, false).4;
+            println!("{}", json!({"steps": [d.to_string()], "config": format!("{}/{}/{}", util::profile_name(), features_name(), parity)}));
+            return 0;
+        }
         if v.get("engine").and_then(|e| e.as_str()) == Some("buf") {
             let Some(c) = BCase::from_json(&v) else { return 2 };
-            println!("{}", json!({"steps": [read_digest(&c).to_string()], "config": format!("{}/{}/{}", util::profile_name(), features_name(), parity)}));
+            let mut st = BStats::default();
+            let d = run_bcase(&c, &mut st, false).dg;
+            println!("{}", json!({"steps": [read_digest(&c).to_string(), d.to_string()], "config": format!("{}/{}/{}", util::profile_name(), features_name(), parity)}));
             return 0;
         }
         let Some((c, _)) = case_from_json(&v) else { return 2 };
@@ -174,15 +204,29 @@ pub fn main_digest(args: &Args) -> i32 {
         }
         true
     });
+    // adapter trees (read side) and write-target trees, restricted to the API present in every feature set
+    let (bcases, wcases) = gen_b(seed, n / 2);
     if args.has("dump-cases") {
         let dump: Vec<Value> = cases.iter().map(|c| case_json(c, parity)).collect();
-        println!("{}", json!({"cases": dump}));
+        println!("{}", json!({"cases": dump, "buf_cases": bcases.iter().map(|c| c.to_json()).collect::<Vec<_>>(), "bufmut_cases": wcases.iter().map(|c| c.to_json()).collect::<Vec<_>>()}));
         return 0;
+    }
+    let mut bufd: Vec<String> = Vec::new();
+    let mut bst = BStats::default();
+    for c in &bcases {
+        util::set_current_case(&c.to_json().to_string());
+        bufd.push(format!("{:016x}", run_bcase(c, &mut bst, false).dg));
+    }
+    let mut wd: Vec<String> = Vec::new();
+    let mut wst = WStats::default();
+    for c in &wcases {
+        util::set_current_case(&c.to_json().to_string());
+        wd.push(format!("{:016x}", run_wcase_dg(c, &mut wst, false).4));
     }
     println!(
         "{}",
         json!({"engine": "digest", "config": {"profile": util::profile_name(), "features": features_name(), "parity": parity},
-        "hist": hist, "hist_nontrivial": hist_nt, "reads": reads, "read_stride": stride, "steps_total": steps_total, "cases_ended_by_an_oracle": panics_marked})
+        "hist": hist, "hist_nontrivial": hist_nt, "reads": reads, "buf": bufd, "bufmut": wd, "read_stride": stride, "steps_total": steps_total, "cases_ended_by_an_oracle": panics_marked})
     );
     0
 }
